@@ -335,6 +335,78 @@ def run(tier, replay=None):
                                                   bad[0].get('l'), ir.show(bad[0])[:70])),
                    key='E8|process_edges|%s|forall-flag' % unit)
 
+    # ---- T2f per-edge scratch state: a local of process_edges declared before the loop over the edges and modified in
+    # its body is reset at the top of the body (clear() / an assignment of a literal) - the output accumulator, only
+    # appended to, apart. A flag that survives from one edge to the next (`heapified`) makes a later edge walk its
+    # later neighbours unsorted.
+    for unit in ('sparse', 'dense'):
+        f = fn(unit, 'process_edges')
+        loops = [x for x in ir.walk(f['body']) if x.get('k') == 'CXXForRangeStmt' and
+                 ir.contains(x.get('body'), lambda y: ir.is_call(y) and ir.call_name(y) == 'emplace_back'
+                             and ir.show(ir.call_receiver(y)) == 'res')]
+        lp = loops[0]
+        inside = {id(y) for y in ir.walk(lp)}
+        outer = {x['n']: x for x in ir.walk(f['body']) if x.get('k') == 'VarDecl' and id(x) not in inside and
+                 (x.get('l') or 0) < (lp.get('l') or 0)}
+        stale = []
+        for name in outer:
+            writes = [y for y in ir.walk(lp.get('body')) if
+                      (ir.write_target(y) is not None and ir.show(ir.write_target(y)) == name) or
+                      (ir.is_call(y) and ir.call_receiver(y) is not None and ir.show(ir.call_receiver(y)) == name and
+                       ir.call_name(y) in ('insert', 'emplace_back', 'push_back', 'clear', 'emplace', 'erase', 'pop_back'))]
+            if not writes:
+                continue
+            only_append = all(ir.is_call(y) and ir.call_name(y) in ('emplace_back', 'push_back') for y in writes)
+            parb = ir.parents(lp.get('body'))
+
+            def unconditional(y):
+                cur = y
+                while id(cur) in parb:
+                    cur = parb[id(cur)]
+                    if cur.get('k') not in ('CompoundStmt', 'ExprWithCleanups', 'ImplicitCastExpr'):
+                        return False
+                return True
+            reset = any(unconditional(y) and ((ir.is_call(y) and ir.call_name(y) == 'clear') or
+                        (ir.write_target(y) is not None and y.get('op') == '=' and
+                         (ir.skipcasts(y['c'][1]) or {}).get('k') in ('IntegerLiteral', 'CXXBoolLiteralExpr',
+                                                                      'FloatingLiteral'))) for y in writes)
+            if not reset and not only_append:
+                stale.append(name)
+        chk.ob('E8-per-edge-state', 'process_edges (%s): every local that outlives one edge is reset for the next '
+               '(%d locals declared before the loop)' % (unit, len(outer)), '%s:%s' % (H, lp.get('l')), not stale,
+               '' if not stale else '`%s` is declared before the loop over the edges, modified in it and never reset: '
+               'what one edge left there decides for the next' % '`, `'.join(stale),
+               key='E8|process_edges|%s|per-edge-state' % unit)
+
+    # ---- T2g the sparse arm of is_dominated_by advances to the next neighbour of e only after the time test of the
+    # current match
+    f = fn('sparse', 'is_dominated_by')
+    ngb0 = f['params'][0]['n']
+
+    def cl_adv(x):
+        if x.get('k') == 'UnaryOperator' and x.get('op') == '++' and ir.show(x['c'][0]) == 'eni':
+            return ['ADV']
+        return []
+    pths = paths.enumerate_paths(f, cl_adv, loop_mode='01', keep_conds=True, cap=20000)
+    bad = None
+    fpar = f['params'][2]['n']
+    for p_ in pths:
+        timed = False
+        for tag, node in p_.events:
+            if tag == '?' and not isinstance(node[0], tuple):
+                t = ir.show(node[0])
+                if re.search(r'->second\s*>\s*%s\b' % re.escape(fpar), t) and not node[1]:
+                    timed = True
+            elif tag == 'ADV':
+                if not timed and bad is None:
+                    bad = node
+                timed = False
+    chk.ob('E10-timed-domination', 'is_dominated_by (sparse): a neighbour of e is passed only after the time of its '
+           'match in the list of c was tested (%d paths)' % len(pths), '%s:%d' % (H, f['line']), bad is None,
+           '' if bad is None else 'line %s: `++eni` on a path that has not tested `->second > %s` for the current '
+           'match: the last common neighbour is accepted whatever the time of its edge to the candidate' % (
+               bad.get('l'), fpar), key='E10|is_dominated_by|sparse|match-timed')
+
     # ---- T2c sentinels of the two template types
     n_cmp = n_inf = 0
     for f in [g for g in F.functions if g['file'].endswith('Flag_complex_edge_collapser.h') and
